@@ -33,7 +33,7 @@ func impl(in hv.Val) hv.Val {
 }
 
 // ---------------------------------------------------------------- request generator
-var hosts = []string{"Example.com", "www.example.com:8080", "a.b", "", ":80", "Host.Example.com:", "example.com:80", "bfe-networks.com:443", "EXAMPLE.COM"}
+var hosts = []string{"Example.com", "www.example.com:8080", "a.b", "", ":8080", ":443", "Host.Example.com:", "example.com:80", "bfe-networks.com:443", "EXAMPLE.COM"}
 var paths = []string{"/", "/api/Search", "/api/search/", "/api/report", "/api/reportX/y", "", "/Index.PHP", "/a/b/c.jsp", "/api", "/API/report/"}
 var hkeys = []string{"Referer", "X-Device-Id", "User-Agent", "Accept", "X-Bfe-Debug", "Header-Test"}
 var qkeys = []string{"uid", "word", "wd", "rid1", "ridX", "Cid", ""}
@@ -145,7 +145,7 @@ func genReq(r *hv.Rng, name string) *condh.Req {
 	if strings.Contains(name, "time") {
 		// the time fetcher is only modelled with the debug header (otherwise time.Now())
 		zone, off := zoneOf(r)
-		v := fmtTime(baseUnix+int64(r.Range(-5, 5)), zone, off)
+		v := fmtTime(baseUnix+int64(r.Range(-3, 4)), zone, off)
 		if r.Chance(1, 10) {
 			v = pickS(r, []string{"", "x", "20190204203000", "20191304203000H", "20190204203000J"})
 		}
@@ -291,6 +291,12 @@ func genArgs(r *hv.Rng, name string, kinds []int, q *condh.Req) []condh.Arg {
 	for _, c := range q.Ctx {
 		subjects = append(subjects, c.V)
 	}
+	focus := func(v string) {
+		// patterns of a keyed primitive are mostly derived from the value stored under the chosen key
+		if r.Chance(3, 4) {
+			subjects = []string{v, v, v, strings.ToLower(v), pickS(r, subjects)}
+		}
+	}
 	var args []condh.Arg
 	nstr := 0
 	for _, k := range kinds {
@@ -309,16 +315,40 @@ func genArgs(r *hv.Rng, name string, kinds []int, q *condh.Req) []condh.Arg {
 		switch {
 		case isKeyPos && strings.HasPrefix(name, "req_query"):
 			v = keyFrom(r, keysOf(q.Query), qkeys)
+			for _, e := range q.Query {
+				if e.K == v && len(e.V) > 0 {
+					focus(e.V[0])
+					break
+				}
+			}
 		case isKeyPos && strings.HasPrefix(name, "req_cookie"):
 			var present []string
 			for _, c := range q.Cookies {
 				present = append(present, c.K)
 			}
 			v = keyFrom(r, present, ckeys)
+			for _, c := range q.Cookies {
+				if c.K == v {
+					focus(c.V)
+					break
+				}
+			}
 		case isKeyPos && strings.HasPrefix(name, "req_header"):
 			v = keyFrom(r, keysOf(q.Headers), hkeys)
+			for _, e := range q.Headers {
+				if strings.EqualFold(e.K, v) && len(e.V) > 0 {
+					focus(e.V[0])
+					break
+				}
+			}
 		case isKeyPos && strings.HasPrefix(name, "res_header"):
 			v = keyFrom(r, keysOf(q.RHeaders), hkeys)
+			for _, e := range q.RHeaders {
+				if strings.EqualFold(e.K, v) && len(e.V) > 0 {
+					focus(e.V[0])
+					break
+				}
+			}
 		case isKeyPos && name == "req_tag_match":
 			v = keyFrom(r, keysOf(q.Tags), []string{"clientIP", "ua"})
 		case isKeyPos && name == "req_context_value_in":
@@ -327,6 +357,12 @@ func genArgs(r *hv.Rng, name string, kinds []int, q *condh.Req) []condh.Arg {
 				present = append(present, c.K)
 			}
 			v = keyFrom(r, present, []string{"k1", "k2", ""})
+			for _, c := range q.Ctx {
+				if c.K == v {
+					focus(c.V)
+					break
+				}
+			}
 		case name == "req_tag_match":
 			v = pickS(r, []string{"blocklist", "white", "", "Blocklist", "blocklist:x"})
 		case strings.HasSuffix(name, "_regmatch"):
@@ -368,7 +404,7 @@ func genArgs(r *hv.Rng, name string, kinds []int, q *condh.Req) []condh.Arg {
 			v = strings.Join(parts, "|")
 		case name == "bfe_time_range":
 			zone, off := zoneOf(r)
-			d := int64(r.Range(0, 6))
+			d := int64(r.Range(0, 3))
 			if si == 0 {
 				d = -d + 1
 			}
@@ -387,7 +423,7 @@ func genArgs(r *hv.Rng, name string, kinds []int, q *condh.Req) []condh.Arg {
 				if r.Chance(1, 3) {
 					zone, off = zoneOf(r)
 				}
-				d := int64(r.Range(0, 6))
+				d := int64(r.Range(0, 3))
 				if si == 0 {
 					d = -d + 1
 				}
